@@ -12,6 +12,9 @@ def get_p(M, ma, mb):
     m_p = (ma + mb) ** 2
     m_m = (ma - mb) ** 2
     p2 = (m2 - m_p) * (m2 - m_m)
+    # below threshold (M < ma + mb) there is no decay, also where both
+    # factors are negative (M < |ma - mb|) and their product is positive
+    p2 = tf.where(m2 < m_p, tf.zeros_like(p2), p2)
     p = tf.where(p2 <= 0, tf.zeros_like(p2), p2)
     p = tf.cast(p, tf.float64)
     ret = tf.sqrt(p) / (2.0 * tf.cast(M, p.dtype))
